@@ -27,7 +27,7 @@ def case_strategy():
     return st.fixed_dictionaries({
         'mode': st.sampled_from(['api', 'api', 'ref']),
         'recipe': keykit.recipe_strategy(),
-        'layout': st.integers(0, 7),
+        'layout': st.integers(0, 31),
         'secret': st.booleans(),
         'armored': st.booleans(),
         'concat': st.lists(keykit.recipe_strategy(max_uids=2, max_subs=1), max_size=2),
@@ -151,11 +151,24 @@ def evaluate(c, rec):
         rec.finding('build', 'exception/%s/%s' % (c['mode'], harness.exc_key(e)), c, repr(e))
         return
     blob = check_export(rec, c, key, model, c['secret'], c['armored'], c['mode'])
+    if c['mode'] == 'ref' and blob is not None:
+        # nothing was changed on the foreign key: every key packet and every signature goes out with the body it came in with
+        try:
+            kb = [p.body for p in wire.split_packets(blob) if p.tag in (5, 6, 7, 14)]
+            want = model.secret_bodies if c['secret'] else [rkeys.parse_public_body(b)[0].body for b in model.secret_bodies]
+            if kb != want:
+                rec.finding('export', 'key-material-differs/ref', c, 'key packet bodies of the export differ from the imported ones at positions %r' % [i for i, (a, b) in enumerate(zip(kb, want)) if a != b])
+        except wire.WireError as e:
+            rec.finding('export', 'reference-cannot-parse/ref', c, str(e))
     # a copy exports identically
     try:
         obj = key if c['secret'] else key.pubkey
         if bytes(copy.copy(obj)) != bytes(obj):
             rec.finding('copy', 'copy-exports-differently/' + c['mode'], c, '')
+        if c['mode'] == 'ref' and bytes(copy.copy(key)) != bytes(key):
+            rec.finding('copy', 'copy-of-private-key-exports-differently/ref', c, '')
+        if c['mode'] == 'ref' and bytes(copy.copy(key).pubkey) != bytes(key.pubkey):
+            rec.finding('copy', 'copy-pubkey-exports-differently', c, '')
         if c['mode'] == 'api' and bytes(copy.copy(key).pubkey) != bytes(key.pubkey):
             rec.finding('copy', 'copy-pubkey-exports-differently', c, '')
     except Exception as e:   # noqa
